@@ -643,6 +643,16 @@ func (env *Env) call(x *ECall) (CVal, error) {
 		}
 		al := fc.heapGet(env.state(), "Alloc", arr(SInt, SBool))
 		return CVal{Term{fmt.Sprintf("(and (> %s 0) (select %s %s))", args[0].T.S, al.S, args[0].T.S), SBool}, nil}, nil
+	case "typetag": // typetag("T"): the tag interface values of dynamic type T carry
+		lit, ok := x.Args[0].(*ELit)
+		if !ok {
+			return CVal{}, fmt.Errorf("typetag(\"T\")")
+		}
+		gt, _, err := fc.e.resolveType(lit.Val, env.pkg)
+		if err != nil || gt == nil {
+			return CVal{}, fmt.Errorf("typetag: %v", err)
+		}
+		return CVal{Term{strconv.Itoa(fc.e.typeTag(gt)), SInt}, nil}, nil
 	case "distinct":
 		args, err := evalArgs()
 		if err != nil {
@@ -702,6 +712,18 @@ func (env *Env) call(x *ECall) (CVal, error) {
 		return CVal{fc.e.unbox(v.T, gt), gt}, nil
 	case "smt": // smt("raw term", Sort)
 	}
+	switch x.Fn {
+	case "smt_in_re_decimal", "smt_in_re_timestamp":
+		args, err := evalArgs()
+		if err != nil {
+			return CVal{}, err
+		}
+		re := "(re.++ (re.opt (str.to_re \"-\")) (re.+ (re.range \"0\" \"9\")))"
+		if x.Fn == "smt_in_re_timestamp" {
+			re = "(re.+ (re.union (re.range \"0\" \"9\") (str.to_re \"T\") (str.to_re \":\") (str.to_re \".\") (str.to_re \"Z\") (str.to_re \"+\") (str.to_re \"-\")))"
+		}
+		return CVal{Term{"(str.in_re " + args[0].T.S + " " + re + ")", SBool}, nil}, nil
+	}
 	if sf, ok := fc.e.specs.Spec[x.Fn]; ok {
 		args, err := evalArgs()
 		if err != nil {
@@ -756,6 +778,9 @@ var smtBuiltins = map[string]smtB{
 	"foldcase":  {"str$fold", SString, []string{SString}},
 	"lowercase": {"str$lower", SString, []string{SString}},
 	"hexu":      {"uuid$hex", SString, []string{SString}},
+	"itoa":      {"itoa$", SString, []string{SInt}},
+	"timefmt":   {"timefmt$", SString, []string{STime, SString}},
+	"fmtref":    {"fmt$ref", SString, []string{SInt, SInt}},
 	"sha16":       {"sha16$", SString, []string{SString}},
 	"varintBytes": {"varint$bytes", SString, []string{SInt}},
 	"le64Bytes":   {"le64$bytes", SString, []string{SInt}},
